@@ -686,8 +686,13 @@ def plan_exhaustive(st, S, T, full):
         n0 = len(steps)
         steps += [{"sql": "select id, v from src"}, {"sql": f"select id, CAST(v AS {T.sql}) from src"}]
         st.add(f"nx/{S.key}/{T.key}", steps, {"kind": "nx", "S": S, "T": T, "items": items, "n0": n0})
-    for i, v in enumerate(bad):
-        add_probe(st, f"px/{S.key}/{T.key}/{i}", S, T, v, echo=False)
+    G = 20
+    for k in range(0, len(bad), G):
+        part = bad[k:k + G]
+        steps = []
+        for i, v in enumerate(part):
+            steps += [{"sql": f"create temp table e{i} as select {R.lit(S, v)} as v"}, {"sql": f"select 0, CAST(v AS {T.sql}) from e{i}"}]
+        st.add(f"px/{S.key}/{T.key}/{k}", steps, {"kind": "pxg", "S": S, "T": T, "vals": part})
 
 
 def judge_nx(st, job, res, case):
@@ -715,7 +720,40 @@ def judge_nx(st, job, res, case):
     chk.sample({"case": case["id"], "sql": case["steps"][n0 + 1]["sql"], "values": len(items)}, cap=14)
 
 
+def judge_pxg(st, job, res, case):
+    """A group of expected failures, one statement each (own one-row table); a panic skips the rest, which is re-probed."""
+    chk = st.chk
+    S, T = job["S"], job["T"]
+    conv = R.conv_name(S, T)
+    if "died" in res:
+        died_or_panic(chk, res, case, case["id"], conv)
+        return
+    steps = res["steps"]
+    for i, v in enumerate(job["vals"]):
+        s0, s1 = steps[2 * i], steps[2 * i + 1]
+        if s0["outcome"] == "skipped" or s1["outcome"] == "skipped":
+            st.reruns.append((S, T, v))
+            continue
+        if s1["outcome"] == "panic" or s0["outcome"] == "panic":
+            sub = {"id": case["id"], "steps": case["steps"][2 * i:2 * i + 2]}
+            died_or_panic(chk, {"steps": [s0, s1]}, sub, f"{S.sql} {show(S, v)} -> {T.sql}", conv)
+            chk.evaluated()
+            continue
+        if s0["outcome"] not in ("rows", "empty"):
+            chk.count("probe_source_not_loadable")
+            continue
+        r = obs_rows(T, s1)
+        sub = {"id": case["id"], "steps": case["steps"][2 * i:2 * i + 2]}
+        if r[0] == "err":
+            judge_num(st, S, T, v, ERR, "column-probe", sub)
+        elif r[0] == "rows":
+            judge_num(st, S, T, v, r[1].get(0), "column-probe", sub)
+        else:
+            chk.violation({"kind": "result-type", "conv": conv}, f"{case['id']}: {r[1]}", {"cases": [sub], "run_kw": {"env": ENV}})
+
+
 JUDGES["nx"] = judge_nx
+JUDGES["pxg"] = judge_pxg
 
 
 PRESCRIBED = {"float->int": {"trunc"}, "decimal->int": {"trunc"}, "decimal->decimal": {"away"},
